@@ -293,6 +293,9 @@ func (s *Sim) checkQueryData(oq *OpenQuery, h ecs.Entity, l int) {
 		want := u.Get(h, s.ids[ts[i]])
 		if p != want {
 			s.violate("C03", "query.data", fmt.Sprintf("Query%d.Get", len(ts)), false, "query Get() pointer %d (T%02d) for entity label %d = %x, Unsafe.Get = %x", i, ts[i], l, ptrOf(p), ptrOf(want))
+			if fi.Spec.Ad >= 0 {
+				s.violate("C14", "api.pointers", fmt.Sprintf("Query%d.Get", len(ts)), false, "Query%d.Get() pointer %d (T%02d) for entity label %d = %x, Unsafe.Get = %x", len(ts), i, ts[i], l, ptrOf(p), ptrOf(want))
+			}
 			return
 		}
 		if got, exp := U[ts[i]].Get(p), s.M.Get(l).Comps[ts[i]]; got != exp {
@@ -309,6 +312,9 @@ func (s *Sim) checkQueryData(oq *OpenQuery, h ecs.Entity, l int) {
 		want := u.GetRelation(h, s.ids[t])
 		if got != want {
 			s.violate("C03", "query.data", fmt.Sprintf("Query%d.GetRelation", len(ts)), false, "query GetRelation(%d) for entity label %d = %v, Unsafe.GetRelation = %v", i, l, got, want)
+			if fi.Spec.Ad >= 0 {
+				s.violate("C14", "api.relidx", fmt.Sprintf("Query%d.GetRelation", len(ts)), false, "Query%d.GetRelation(%d) for entity label %d = %v, Unsafe.GetRelation = %v", len(ts), i, l, got, want)
+			}
 			return
 		}
 	}
